@@ -1,15 +1,61 @@
 // C07 harness: executes buffer op files against the real tbox::util::Buffer and prints the
 // API-observable state after every op (same format as lean/Driver/C07.lean).
+//
+// operator new[] / delete[] are interposed: every block the Buffer code allocates is recorded
+// (address, size), requests above kAllocLimit and requests of an op prefixed `F` throw
+// std::bad_alloc (no memory is touched), and after every op each buffer's readable and writable
+// windows are checked to lie inside the block it currently owns, blocks of different buffers being
+// different (`in=1`).
 #include "vh.h"
 #include <cstring>
 #include <memory>
+#include <new>
 #include <tbox/util/buffer.h>
 
 using tbox::util::Buffer;
+
+// ---------------------------------------------------------------- allocator interposition
+static const size_t kAllocLimit = 16777216;     // = allocLimit of the Lean driver
+struct Block { uint8_t *p; size_t n; };
+static Block g_blocks[64];
+static bool g_armed = false;    // inside a call into the code under test
+static bool g_fault = false;    // every armed request fails
+static uint64_t g_news = 0, g_dels = 0;
+
+static size_t liveBlocks() { size_t k = 0; for (auto &b : g_blocks) if (b.p) ++k; return k; }
+static const Block *blockOf(const uint8_t *p) {
+    for (auto &b : g_blocks) if (b.p && p >= b.p && p <= b.p + b.n) return &b;
+    return nullptr;
+}
+
+void *operator new[](size_t n) {
+    if (!g_armed) { void *p = malloc(n ? n : 1); if (!p) throw std::bad_alloc(); return p; }
+    ++g_news;
+    if (g_fault || n > kAllocLimit) throw std::bad_alloc();
+    uint8_t *p = (uint8_t*)malloc(n ? n : 1);     // ASan block of exactly n bytes: redzones on both sides
+    if (!p) throw std::bad_alloc();
+    memset(p, 0xA5, n);                            // never hand out zeroes: a missing copy shows
+    for (auto &b : g_blocks) if (!b.p) { b.p = p; b.n = n; return p; }
+    abort();                                       // more than 64 live blocks: the code leaks
+}
+void operator delete[](void *p) noexcept {
+    if (!p) return;
+    for (auto &b : g_blocks) if (b.p == p) { b.p = nullptr; if (g_armed) ++g_dels; free(p); return; }
+    free(p);                                       // not one of the tracked blocks
+}
+void operator delete[](void *p, size_t) noexcept { operator delete[](p); }
+
+// ---------------------------------------------------------------- buffers
 static const size_t kSlots = 4;
 static std::unique_ptr<Buffer> g[kSlots];
 
-static void reinit() { for (auto &b : g) b.reset(new Buffer()); }  // default capacity 256
+static void destroyAll() { for (auto &b : g) b.reset(); }
+static void reinit() {
+    destroyAll();
+    g_armed = true;      // the default-constructed buffers own tracked blocks too
+    for (auto &b : g) b.reset(new Buffer());      // default capacity kInitialSize
+    g_armed = false;
+}
 
 static std::string show() {
     std::string s;
@@ -20,63 +66,190 @@ static std::string show() {
     return s;
 }
 
-static bool slot(const std::string &w, size_t &i) {
-    uint64_t v; if (!vh::to_u64(w, v) || v >= kSlots) return false; i = v; return true;
+// every window inside the owner's current block; no block shared by two buffers
+static bool windowsInside() {
+    const Block *own[kSlots];
+    for (size_t i = 0; i < kSlots; ++i) {
+        const Buffer &b = *g[i];
+        const uint8_t *rb = b.readableBegin(), *wb = b.writableBegin();
+        size_t rs = b.readableSize(), ws = b.writableSize();
+        own[i] = nullptr;
+        if (rb == nullptr || wb == nullptr) {
+            if (rb != wb || rs != 0 || ws != 0) return false;
+            continue;
+        }
+        const Block *k = blockOf(rb);
+        if (!k) return false;
+        if (rs > (size_t)(k->p + k->n - rb)) return false;
+        if (wb != rb + rs) return false;
+        if (ws > (size_t)(k->p + k->n - wb)) return false;
+        own[i] = k;
+        for (size_t j = 0; j < i; ++j) if (own[j] == k) return false;
+    }
+    return true;
 }
+
+// a size_t literal: digits only, value <= SIZE_MAX (vh::to_u64 wraps silently)
+static bool num(const std::string &s, uint64_t &v) {
+    if (s.empty() || s.size() > 20) return false;
+    v = 0;
+    for (char c : s) {
+        if (c < '0' || c > '9') return false;
+        if (v > (UINT64_MAX - (uint64_t)(c - '0')) / 10) return false;
+        v = v * 10 + (uint64_t)(c - '0');
+    }
+    return true;
+}
+
+static bool slot(const std::string &w, size_t &i) {
+    uint64_t v; if (!num(w, v) || v >= kSlots) return false; i = v; return true;
+}
+
+// a heap block holding `n` bytes at a chosen placement: pl 0..7 = start misaligned by pl, the last
+// byte directly in front of the redzone; pl 8..15 = first byte directly behind the redzone, pl-8 spare
+// bytes behind the data
+struct Placed {
+    uint8_t *block, *p;
+    Placed(unsigned pl, size_t n) {
+        size_t pad = pl < 8 ? pl : pl - 8;
+        block = (uint8_t*)malloc(n + pad ? n + pad : 1);
+        p = pl < 8 ? block + pad : block;
+    }
+    ~Placed() { free(block); }
+};
 
 int main() {
     std::string line;
     reinit();
+    bool tainted = false;
     while (std::getline(std::cin, line)) {
         auto w = vh::words(line);
         if (w.empty()) continue;
-        if (w[0] == "case") { reinit(); std::cout << line << "\n"; continue; }
-        size_t i = 0, j = 0; uint64_t n = 0; std::vector<uint8_t> d;
-        std::string tag = "P ", extra; uint64_t ret = 0; std::string out = "-";
+        if (w[0] == "case") { reinit(); tainted = false; std::cout << line << "\n"; continue; }
+        if (w.size() == 1 && w[0] == "teardown") {
+            destroyAll();
+            std::cout << "P live=" << liveBlocks() << "\n";
+            reinit();
+            continue;
+        }
+        bool fault = false;
+        if (w[0] == "F") { fault = true; w.erase(w.begin()); if (w.empty()) { std::cout << "bad-op\n"; continue; } }
+        size_t i = 0, j = 0; uint64_t n = 0, off = 0, pl = 0; std::vector<uint8_t> d;
+        std::string extra; uint64_t ret = 0; std::string out = "-";
         const std::string &op = w[0];
         bool ok = true;
-        if (op == "ctor" && w.size() == 3 && slot(w[1], i) && vh::to_u64(w[2], n)) {
-            g[i].reset(new Buffer(n));
-        } else if (op == "app" && w.size() == 3 && slot(w[1], i) && vh::unhex(w[2], d)) {
-            ret = g[i]->append(d.data(), d.size());
-        } else if (op == "res" && w.size() == 3 && slot(w[1], i) && vh::to_u64(w[2], n)) {
-            ret = g[i]->ensureWritableSize(n) ? 1 : 0;
-            extra = g[i]->writableSize() >= n ? " wr=1" : " wr=0";
-        } else if (op == "rwc" && w.size() == 4 && slot(w[1], i) && vh::to_u64(w[2], n) && vh::unhex(w[3], d) && d.size() <= n) {
-            g[i]->ensureWritableSize(n);
-            if (!d.empty()) memcpy(g[i]->writableBegin(), d.data(), d.size());
-            g[i]->hasWritten(d.size());
-        } else if (op == "over" && w.size() == 3 && slot(w[1], i) && vh::to_u64(w[2], n)) {
-            size_t ws = g[i]->writableSize();
-            if (ws) memset(g[i]->writableBegin(), 0, ws);
-            g[i]->hasWritten(n > ws ? n : ws);      // over-commit: at least the whole writable region, up to SIZE_MAX
-            tag = "M ";
-        } else if (op == "fetch" && w.size() == 3 && slot(w[1], i) && vh::to_u64(w[2], n)) {
-            // destination of exactly the size we pass: an overrun is visible to ASan
-            std::unique_ptr<uint8_t[]> dst(new uint8_t[n ? n : 1]);
-            ret = g[i]->fetch(dst.get(), n);
-            out = vh::hex(dst.get(), ret <= n ? ret : 0);
-        } else if (op == "con" && w.size() == 3 && slot(w[1], i) && vh::to_u64(w[2], n)) {
-            g[i]->hasRead(n);
-        } else if (op == "conall" && w.size() == 2 && slot(w[1], i)) {
-            g[i]->hasReadAll();
-        } else if (op == "shrink" && w.size() == 2 && slot(w[1], i)) {
-            g[i]->shrink();
-        } else if (op == "cpa" && w.size() == 3 && slot(w[1], i) && slot(w[2], j)) {
-            *g[i] = *g[j];
-        } else if (op == "mva" && w.size() == 3 && slot(w[1], i) && slot(w[2], j)) {
-            *g[i] = std::move(*g[j]);
-        } else if (op == "cpc" && w.size() == 3 && slot(w[1], i) && slot(w[2], j) && i != j) {
-            g[i].reset(new Buffer(*g[j]));
-        } else if (op == "mvc" && w.size() == 3 && slot(w[1], i) && slot(w[2], j) && i != j) {
-            g[i].reset(new Buffer(std::move(*g[j])));
-        } else if (op == "swap" && w.size() == 3 && slot(w[1], i) && slot(w[2], j)) {
-            g[i]->swap(*g[j]);
-        } else if (op == "reset" && w.size() == 2 && slot(w[1], i)) {
-            g[i]->reset();
-        } else ok = false;
+        const char *how = "ok";
+        g_news = g_dels = 0;
+        // One attempt at the operation.  The calls into the code under test run armed; std::bad_alloc is
+        // the reported failure.
+        auto attempt = [&](bool with_fault) {
+          g_fault = with_fault; how = "ok"; ret = 0; out = "-"; extra.clear();
+          try {
+            if (op == "ctor" && w.size() == 3 && slot(w[1], i) && num(w[2], n)) {
+                g_armed = true; g[i].reset(new Buffer(n));
+            } else if (op == "ctord" && w.size() == 2 && slot(w[1], i)) {
+                g_armed = true; g[i].reset(new Buffer());
+            } else if ((op == "app" && w.size() == 3 && slot(w[1], i) && vh::unhex(w[2], d)) ||
+                       (op == "appa" && w.size() == 4 && slot(w[1], i) && num(w[2], pl) && pl < 16 && vh::unhex(w[3], d))) {
+                Placed src(op == "app" ? 0 : (unsigned)pl, d.size());
+                if (!d.empty()) memcpy(src.p, d.data(), d.size());
+                g_armed = true;
+                ret = g[i]->append(src.p, d.size());
+                g_armed = false;
+                if (ret != d.size()) how = "refused";
+            } else if (op == "apps" && w.size() == 4 && slot(w[1], i) && num(w[2], off) && num(w[3], n)) {
+                // append from the buffer's own readable bytes; the room is reserved BEFORE the source
+                // pointer is taken, so the append itself neither moves nor reallocates
+                // (that an append into reserved room does not move anything is a property of the capacity policy:
+                // from here on the case's state lines are model-internal)
+                tainted = true;
+                size_t rs = g[i]->readableSize();
+                if (off <= rs && n <= rs - off) {
+                    g_armed = true;
+                    if (g[i]->ensureWritableSize(n)) {
+                        ret = g[i]->append(g[i]->readableBegin() + off, n);
+                        if (ret != n) how = "refused";
+                    } else how = "refused";
+                }
+            } else if (op == "res" && w.size() == 3 && slot(w[1], i) && num(w[2], n)) {
+                g_armed = true;
+                bool r = g[i]->ensureWritableSize(n);
+                g_armed = false;
+                ret = r ? 1 : 0;
+                if (!r) how = "refused";
+                else {
+                    extra = g[i]->writableSize() >= n ? " wr=1" : " wr=0";
+                    // the reserved bytes are really there (ASan sees a lie)
+                    if (n > 0 && n <= (1u << 20) && g[i]->writableSize() >= n) memset(g[i]->writableBegin(), 0xEE, n);
+                }
+            } else if (op == "rwc" && w.size() == 4 && slot(w[1], i) && num(w[2], n) && vh::unhex(w[3], d) && d.size() <= n) {
+                g_armed = true;
+                if (g[i]->ensureWritableSize(n)) {
+                    if (!d.empty()) memcpy(g[i]->writableBegin(), d.data(), d.size());
+                    g[i]->hasWritten(d.size());
+                } else how = "refused";
+            } else if (op == "over" && w.size() == 3 && slot(w[1], i) && num(w[2], n)) {
+                size_t ws = g[i]->writableSize();
+                if (ws) memset(g[i]->writableBegin(), 0, ws);
+                g_armed = true;
+                g[i]->hasWritten(n > ws ? n : ws);      // over-commit: at least the whole writable region, up to SIZE_MAX
+                tainted = true;
+            } else if ((op == "fetch" && w.size() == 3 && slot(w[1], i) && num(w[2], n)) ||
+                       (op == "fetcha" && w.size() == 4 && slot(w[1], i) && num(w[2], pl) && pl < 16 && num(w[3], n))) {
+                // destination of exactly min(n, readable) bytes at the chosen placement: an overrun is visible to ASan
+                size_t rs = g[i]->readableSize();
+                size_t want = n < rs ? n : rs;
+                Placed dst(op == "fetch" ? 0 : (unsigned)pl, want);
+                g_armed = true;
+                ret = g[i]->fetch(dst.p, n);
+                g_armed = false;
+                out = vh::hex(dst.p, ret <= want ? ret : 0);
+            } else if (op == "con" && w.size() == 3 && slot(w[1], i) && num(w[2], n)) {
+                g_armed = true; g[i]->hasRead(n);
+            } else if (op == "conall" && w.size() == 2 && slot(w[1], i)) {
+                g_armed = true; g[i]->hasReadAll();
+            } else if (op == "shrink" && w.size() == 2 && slot(w[1], i)) {
+                g_armed = true; g[i]->shrink();
+            } else if (op == "cpa" && w.size() == 3 && slot(w[1], i) && slot(w[2], j)) {
+                g_armed = true; *g[i] = *g[j];
+            } else if (op == "mva" && w.size() == 3 && slot(w[1], i) && slot(w[2], j)) {
+                g_armed = true; *g[i] = std::move(*g[j]);
+            } else if (op == "cpc" && w.size() == 3 && slot(w[1], i) && slot(w[2], j) && i != j) {
+                g_armed = true; g[i].reset(new Buffer(*g[j]));
+            } else if (op == "mvc" && w.size() == 3 && slot(w[1], i) && slot(w[2], j) && i != j) {
+                g_armed = true; g[i].reset(new Buffer(std::move(*g[j])));
+            } else if (op == "swap" && w.size() == 3 && slot(w[1], i) && slot(w[2], j)) {
+                g_armed = true; g[i]->swap(*g[j]);
+            } else if (op == "reset" && w.size() == 2 && slot(w[1], i)) {
+                g_armed = true; g[i]->reset();
+            } else ok = false;
+          } catch (const std::bad_alloc &) {
+            how = "badalloc"; ret = 0;
+          }
+          g_armed = false; g_fault = false;
+        };
+        // `F op`: first an attempt during which every allocation fails.  Whether the op needs an allocation
+        // depends on the capacity policy (M line); what the property demands is that a FAILED attempt leaves
+        // everything as it was (`keep`), after which the op is executed again with a working allocator.
+        const char *how1 = "ok"; bool keep = true;
+        if (fault) {
+            std::string before = show();
+            attempt(true);
+            how1 = how;
+            if (ok && strcmp(how, "ok") != 0) {
+                keep = (show() == before) && windowsInside();
+                attempt(false);
+            }
+        } else {
+            attempt(false);
+            how1 = how;
+        }
         if (!ok) { std::cout << "bad-op\n"; continue; }
-        std::cout << tag << show() << " ret=" << ret << " out=" << out << extra << "\n";
+        bool failed = strcmp(how, "ok") != 0;
+        std::cout << (tainted ? "M " : "P ") << show() << " ret=" << ret << " out=" << out
+                  << " st=" << (failed ? "fail" : "ok") << " in=" << (windowsInside() ? 1 : 0) << " keep=" << (keep ? 1 : 0) << extra << "\n";
+        std::cout << "M how=" << how1 << " news=" << g_news << " dels=" << g_dels
+                  << " wsz=" << g[i]->writableSize() << " live=" << liveBlocks() << "\n";
     }
     return 0;
 }
